@@ -51,6 +51,15 @@ theorem umax_int_or_rune (ka kb : UK) (hka : ka = .int ∨ ka = .rune) (hkb : kb
     umax ka kb = .int ∨ umax ka kb = .rune := by
   rcases hka with rfl | rfl <;> rcases hkb with rfl | rfl <;> simp [umax, Spec.ukRank]
 
+/-- the "+" check of `check.binaryExpr` passes on numeric operands under a numeric (or no) node type -/
+theorem addOkY_num (a : Act) (forced : Option Ty) (hf : ∀ f, forced = some f → f.isNumber = true) (c0 c1 : NS)
+    (h0 : c0.ty.isNumber = true) (h1 : c1.ty.isNumber = true) : addOkY F0 a forced c0 c1 = true := by
+  cases forced with
+  | none => cases a <;> rfl
+  | some f =>
+    have := hf f rfl
+    cases a <;> simp [addOkY, this, h0, h1]
+
 /-- `check.binaryExpr` on two untyped integer constants: a constant zero divisor is refused, otherwise both operands
     take the later of the two kinds (the quotient too, since 6f2f5cf) -/
 theorem checkBinaryY_uu (forced : Option Ty) (hf : ∀ f, forced = some f → f.isNumber = true)
@@ -67,10 +76,7 @@ theorem checkBinaryY_uu (forced : Option Ty) (hf : ∀ f, forced = some f → f.
   subst h0ty h1ty h1rv
   have hn0 : (Ty.u ka).isNumber = true := by rcases hka with rfl | rfl <;> rfl
   have hn1 : (Ty.u kb).isNumber = true := by rcases hkb with rfl | rfl <;> rfl
-  have haddok : addOkY a forced (Ty.u ka) (Ty.u kb) = true := by
-    cases forced with
-    | none => cases a <;> rfl
-    | some f => have := hf f rfl; cases a <;> simp [addOkY, this, hn0, hn1]
+  have haddok := addOkY_num a forced hf ⟨rv0, .u ka, s0, i0, f0, t0⟩ ⟨.c (.int q), .u kb, s1, i1, f1, t1⟩ hn0 hn1
   simp only [checkBinaryY, haddok, Bool.not_true, Bool.false_eq_true, if_false]
   by_cases hz : needsNZ a = true ∧ q = 0
   · rw [if_pos hz]
